@@ -70,6 +70,74 @@ func (v *vLogImpl) execMore(f []string) string {
 			lr.next = off + 1
 		}
 		return "ok " + strings.Join(out, " ")
+	case "rwait":
+		// the live reader starts a BLOCKING ReadMessage in its own goroutine: with nothing readable it
+		// parks inside the read (committed readers on the HW), and the ops that follow (appends that
+		// roll segments, HW advances, truncations) happen while it is parked there
+		lr := v.readers[f[1]]
+		if lr == nil || lr.pending != nil {
+			return "bad-op"
+		}
+		ch := make(chan string, 1)
+		lr.pending = ch
+		v.l.mu.RLock()
+		before := len(v.l.hwWaiters)
+		v.l.mu.RUnlock()
+		go func() {
+			buf := make([]byte, 28)
+			ctx, cancel := context.WithTimeout(context.Background(), 3*time.Second)
+			defer cancel()
+			m, off, ts, ep, err := lr.r.ReadMessage(ctx, buf)
+			if err != nil {
+				if strings.Contains(err.Error(), "EOF") || ctx.Err() != nil {
+					ch <- "TIMEOUT"
+				} else {
+					ch <- "err"
+				}
+				return
+			}
+			ch <- fmt.Sprintf("%d:%d:%d:%s:%s:%s", off, ts, ep, vShowBytes(m.Key()), vShowBytes(m.Value()), vShowHdrs(m.Headers()))
+		}()
+		// give it time to park (a committed reader registers in hwWaiters)
+		for i := 0; i < 40; i++ {
+			time.Sleep(500 * time.Microsecond)
+			v.l.mu.RLock()
+			n := len(v.l.hwWaiters)
+			v.l.mu.RUnlock()
+			if n > before {
+				break
+			}
+		}
+		return "ok"
+	case "rjoin":
+		lr := v.readers[f[1]]
+		if lr == nil || lr.pending == nil {
+			return "bad-op"
+		}
+		limit := v.l.NewestOffset()
+		if !lr.uncommitted {
+			limit = v.l.HighWatermark()
+		}
+		var got string
+		if len(v.retainedIn(lr.next, limit)) == 0 {
+			// nothing became readable: the read is abandoned (its context expires); the reader object is dropped
+			delete(v.readers, f[1])
+			return "ok "
+		}
+		select {
+		case got = <-lr.pending:
+		case <-time.After(4 * time.Second):
+			got = "TIMEOUT"
+		}
+		lr.pending = nil
+		if got == "err" {
+			return "err"
+		}
+		if got != "TIMEOUT" {
+			o, _ := strconv.ParseInt(strings.SplitN(got, ":", 2)[0], 10, 64)
+			lr.next = o + 1
+		}
+		return "ok " + got
 	case "cleanmid":
 		ttl, _ := strconv.ParseInt(f[1], 10, 64)
 		ep, _ := strconv.ParseUint(f[2], 10, 64)
